@@ -107,7 +107,7 @@ class LogfileHandler(mlzlog.LogfileHandler):
             # keep only the last max_days files
             with os.scandir(dirname(self.baseFilename)) as it:
                 files = sorted(entry.path for entry in it if entry.name != 'current')
-            for filepath in files[-self.max_days:]:
+            for filepath in files[:-self.max_days]:
                 os.remove(filepath)
 
 
